@@ -133,10 +133,18 @@ def build_foreign(specs, r):
     elif style == "cross17":
         free = [32, 35, 33, 34, 30, 37] + [g for g in range(RD.NGR) if g not in (32, 35, 33, 34, 30, 37)]
     slots = list(range(RD.NSLOT))
-    if r.random() < 0.3:
+    mode = r.random()
+    if mode < 0.25:
         start = r.randrange(0, 20)
         slots = slots[start:] + slots[:start]
         slots = sorted(slots[:len(specs)])
+    elif mode < 0.6:
+        slots = sorted(r.sample(range(0, 40), len(specs)))          # live entries with free / deleted entries between them
+    if mode >= 0.25:
+        for sl in range(0, 40):
+            if sl not in slots[:len(specs)] and r.random() < 0.5:
+                img[RD.DIR + 32 * sl] = 0x00                            # a deleted entry: first byte $00, rest left as it was
+                img[RD.DIR + 32 * sl + 1:RD.DIR + 32 * sl + 13] = b"LDFILE  BAS\x00"
     chains = []
     for i, s in enumerate(specs):
         f = dict(name=s["name"].upper().encode("latin-1"), ext=s["ext"].upper().encode("latin-1"), ftype=s["type"], ascii=s["dtype"], load=s["load"],
@@ -175,6 +183,16 @@ def _run_case(case, ctx):
                 stored.append(s)
             except Exception as e:
                 ctx.outcome("add-failed:" + type(e).__name__)
+            # the same object is listed between additions (add, list, add, list ...): what was listable stays listable
+            try:
+                mid = d.list_files()
+                ctx.mon("reader.list_files.same-object")
+                if not compare_listing(ctx, "C09" if ctx.prop == "C09" else "C07", form + ".same-object", mid, stored, wit):
+                    break
+            except Exception as e:
+                ctx.violation("disk-roundtrip", form + ".same-object", "READER-RAISED:%s:%s" % (type(e).__name__, str(e)[:40].split(",")[0].split(" got")[0]),
+                              dict(wit, error=str(e)[:100], after=len(stored)), prop="C07")
+                break
         written = bytes(d.get_buffer())
         wit["order"] = case["order"]
     elif case["kind"] == "mixed":
